@@ -60,16 +60,29 @@ def _alarm(*a):
 
 
 def make_heap(case):
-    objs = [P(a=o[0], b=o[1], s=o[2], items=tuple(o[3]), n=o[4], f=o[5], pair=tuple(o[6]), idx=i)
+    seq = list if case.get('list_items') else tuple          # inner collections as (mutable) lists or as tuples
+    objs = [P(a=o[0], b=o[1], s=o[2], items=seq(o[3]), n=o[4], f=o[5], pair=tuple(o[6]), idx=i)
             for i, o in enumerate(case['heap'])]
     for i, o in enumerate(case['heap']):
         objs[i].peer = objs[o[7]['o']]
     return objs
 
 
+def user_data_intact(case, objs):
+    """evaluation must never modify the user's objects or collections (C04)"""
+    for o, d in zip(objs, case['heap']):
+        if (o.a, o.b, o.s, list(o.items), o.n, o.f, list(o.pair)) != (d[0], d[1], d[2], list(d[3]), d[4], d[5], list(d[6])) \
+                or o.peer is not objs[d[7]['o']]:
+            return False
+    return True
+
+
+LIST_MODE = [False]
+
+
 def pyval(v, objs):
     if isinstance(v, list):
-        return tuple(pyval(x, objs) for x in v)
+        return (list if LIST_MODE[0] else tuple)(pyval(x, objs) for x in v)
     if isinstance(v, dict):
         return objs[v['o']]
     return v
@@ -136,7 +149,7 @@ class Builder:
             x = self.cond(c[1])
             return ~x if (len(c) > 2 and c[2] == 'op') else not_(x)
         if k == 'forall':
-            return for_all(self.vars[c[1]], self.cond(c[2]))
+            return for_all(self.term(c[3]) if len(c) > 3 else self.vars[c[1]], self.cond(c[2]))
         if k == 'sub':
             sel = [self.term(t) for t in c[1]]
             body = self.cond(c[2])
@@ -194,6 +207,7 @@ def run(case):
     for cfg in ('off', 'on'):
         (disable_caching if cfg == 'off' else enable_caching)()
         objs = make_heap(case)
+        LIST_MODE[0] = bool(case.get('list_items'))
 
         def build():
             with symbolic_mode():
@@ -206,6 +220,8 @@ def run(case):
         TRACE['mixed'], TRACE['retrievals'] = False, 0
         res[cfg] = guarded(lambda: rows_of(q, sel, case.get('form'), objs, case.get('quant')))
         res[cfg + '2'] = guarded(lambda: rows_of(q, sel, case.get('form'), objs, case.get('quant')))
+        if not user_data_intact(case, objs):
+            res[cfg] = res[cfg + '2'] = 'X user-data-modified'
         if cfg == 'on':
             res['mixed_level_retrieval'] = TRACE['mixed']
             res['cache_retrievals'] = TRACE['retrievals']
